@@ -16,6 +16,34 @@ def run_C01(tier, seed):
     return [stages.api_stage("C01", "complete", tier, seed)]
 
 
+def nm_of(s):
+    return max(m["n"] * m["m"] for m in s["sc"]["members"])
+
+
+def verifies(s):
+    """scenarios whose verify_batch call is reached with decodable proofs"""
+    return s["expect"]["prove"] == "ok" and all(m["mut"]["kind"] not in ("bytes",) and m["mut"]["how"] != "noncanon" for m in s["sc"]["members"])
+
+
+def run_C02(tier, seed):
+    q = Q(tier)
+    res = []
+    # (a) design level: code-shaped verifier == published relation, exhaustively over a small field, with seeded-bug negatives
+    cfgs = [(5, 2, 2, 1, "verifier")] if q else [(7, 2, 2, 1, "verifier"), (7, 1, 8, 2, "verifier"), (5, 4, 2, 2, "verifier"), (5, 2, 4, 1, "verifier")]
+    negs = [(7, 2, 4, 1, "verifier", b, "T1") for b in (["dsum_cap", "radix3"] if q else ["dsum_cap", "radix3", "v_ynm", "no_y"])]
+    res.append(stages.algebra_stage("C02", cfgs, negs))
+    # (b) the code's final MSM against the published relation at the actual challenges, in 252-bit arithmetic
+    bound = 16 if q else 64
+    picks = []
+    for fam, cnt in (("alter", 14 if q else 80), ("capacity", 8 if q else 40), ("batch", 8 if q else 40), ("promise", 6 if q else 40)):
+        sc, _ = stages.pick_scenarios(fam, tier, seed, lambda s: verifies(s) and nm_of(s) <= bound and s["sc"]["mode"] != "RecoverOnly", cnt, prop="C02")
+        picks += sc
+    res.append(stages.trace_stage("C02", "relation", picks, seed, arith=True))
+    # (c) verdict agreement on every single alteration, both groups
+    res.append(stages.api_stage("C02", "alter", tier, seed))
+    return res
+
+
 def run_C03(tier, seed):
     neg = [{"name": "first_chunk_only", "loop": False, "whole": False, "expect": "C03"},
            {"name": "loop_without_whole_batch_consistency", "loop": True, "whole": False, "expect": "C03"}]
@@ -53,6 +81,7 @@ def run_C12(tier, seed):
 
 CHECKS = {
     "C01": {"run": run_C01, "level": "model_checking"},
+    "C02": {"run": run_C02, "level": "model_checking"},
     "C03": {"run": run_C03, "level": "model_checking"},
     "C05": {"run": run_C05, "level": "model_checking"},
     "C06": {"run": run_C06, "level": "model_checking"},
@@ -66,6 +95,8 @@ CHECKS = {
 def replay(rep):
     if rep["kind"] == "api":
         return stages.replay_api(rep)
+    if rep["kind"] == "trace":
+        return stages.replay_trace(rep)
     raise vlib.ToolError("unknown replay kind " + rep["kind"])
 
 
